@@ -30,6 +30,8 @@ ASSUMPTIONS = [
     'finite non-zero values and errors have magnitude in [1e-140, 1e140] (plus, in a sixth of the cases, '
     'errors of 1e-170 .. 5e-324 whose squares underflow: such bins are not empty); errors are non-negative; '
     'NaN and infinities are generated only with ignore_empty=False (quantifier of the property)',
+    'two cases in seven without special values hold integer values stored as int32 (|v| <= 1e9) or '
+    'int64 (|v| <= 1e15): neither the values nor their differences leave the dtype',
     'reference law: vlib/dist.py gamma_q (series + Lentz continued fraction), validated in setup() '
     'against tabulated values; agreement with scipy measured at <= 2e-13 relative',
     'tolerances: statistic 1e-9 relative; p-value 1e-6 relative / 1e-300 absolute, computed from '
@@ -81,6 +83,12 @@ def _case(draw):
         if tiny and draw(st.integers(0, 3)) == 0:
             return draw(st.sampled_from(TINY_ERRORS))
         return statgen.error(draw, val, special, zero)
+    # integer-valued datasets (counts, tallies stored as int32 / int64): magnitudes such that
+    # neither the values nor their differences leave the dtype, and exact as floats
+    vdtype = draw(st.sampled_from([None] * 5 + ['i4', 'i8'])) if not special else None
+    if vdtype:
+        vmax = 10 ** 9 if vdtype == 'i4' else 10 ** 15
+        return _int_case(draw, shape, kinds, size, nds, alpha, ignore, err, vdtype, vmax)
     refv = [statgen.value(draw, special) for _ in range(size)]
     refe = [err(v) for v in refv]
     others = []
@@ -106,6 +114,39 @@ def _case(draw):
     perm = draw(st.permutations(list(range(size))))
     return {'shape': shape, 'kinds': kinds, 'ref': {'v': refv, 'e': refe}, 'others': others,
             'alpha': alpha, 'ignore_empty': ignore, 'perm': list(perm),
+            'layout': draw(st.sampled_from(['C', 'C', 'F'])) if len(shape) >= 2 else 'C'}
+
+
+def _int_case(draw, shape, kinds, size, nds, alpha, ignore, err, vdtype, vmax):
+    def ival():
+        expo = draw(st.integers(0, len(str(vmax)) - 1))
+        return draw(st.integers(-min(10 ** expo, vmax), min(10 ** expo, vmax)))
+    refv = [ival() for _ in range(size)]
+    refe = [err(float(v)) for v in refv]
+    others = []
+    for _ in range(nds):
+        spread = draw(st.sampled_from([0.3, 0.8, 1.0, 1.3, 2.0, 4.0]))
+        vals, errs = [], []
+        for v1, e1 in zip(refv, refe):
+            e2 = err(float(v1))
+            q = math.hypot(e1, e2)
+            mode = draw(st.integers(0, 19))
+            if mode == 0:
+                v2 = ival()
+            elif mode <= 2 or not q > 0.0:
+                v2 = v1
+            else:
+                step = spread * draw(st.floats(-2.0, 2.0)) * q
+                v2 = v1 + int(max(-2.0 * vmax, min(2.0 * vmax, step)))
+                if v2 == v1 and step:
+                    v2 = v1 + (1 if step > 0 else -1)
+                v2 = max(-vmax, min(vmax, v2))
+            vals.append(v2)
+            errs.append(e2)
+        others.append({'v': vals, 'e': errs})
+    perm = draw(st.permutations(list(range(size))))
+    return {'shape': shape, 'kinds': kinds, 'ref': {'v': refv, 'e': refe}, 'others': others,
+            'alpha': alpha, 'ignore_empty': ignore, 'perm': list(perm), 'vdtype': vdtype,
             'layout': draw(st.sampled_from(['C', 'C', 'F'])) if len(shape) >= 2 else 'C'}
 
 
@@ -182,8 +223,9 @@ def run_case(case):
 
 def _evaluate(case, shape, kinds, ref, oths):
     lay = case.get('layout', 'C')
-    rds = statgen.make_dataset(shape, kinds, ref['v'], ref['e'], 'ref', lay)
-    ods = [statgen.make_dataset(shape, kinds, o['v'], o['e'], f'o{i}', lay)
+    vdt = case.get('vdtype')
+    rds = statgen.make_dataset(shape, kinds, ref['v'], ref['e'], 'ref', lay, vdt)
+    ods = [statgen.make_dataset(shape, kinds, o['v'], o['e'], f'o{i}', lay, vdt)
            for i, o in enumerate(oths)]
     test = TestChi2(rds, *ods, name='c07', alpha=case['alpha'],
                     ignore_empty=case['ignore_empty'])
@@ -206,6 +248,8 @@ def _run_case(case):
     refv, refe = case['ref']['v'], case['ref']['e']
     out.labels += [kind, f'ndim={len(shape)}', 'ignore-empty' if ignore else 'ignore-off',
                    'multi-dataset' if nds > 1 else 'single-dataset']
+    if case.get('vdtype'):
+        out.labels.append('integer-values-' + case['vdtype'])
 
     refs = [_reference(refv, refe, o['v'], o['e'], ignore) for o in case['others']]
     special_in = any(math.isnan(x) or math.isinf(x)
